@@ -136,7 +136,8 @@ impl<'a> Checker<'a> {
                     }
                 }
             }
-            for x in &obs.new_xorbs {
+            // (a session of another client with its own shard cache leaves nothing in this one by construction)
+            for x in obs.new_xorbs.iter().filter(|_| !ss.foreign_no_cache) {
                 let list = &known_xorbs[&x.name_hash];
                 let missing = list.iter().filter(|(h, _)| !indexed.contains(h)).count();
                 if missing > 0 {
@@ -446,9 +447,19 @@ impl<'a> Checker<'a> {
                     }
                 }
             }
-            for x in &obs.new_xorbs {
-                for (h, _) in &known_xorbs[&x.name_hash] {
-                    prior_chunks.insert(*h);
+            // what this client's shard cache knows afterwards: the chunks of every xorb the session stored and - the
+            // claim of C11 itself - every chunk of the files of a finalized session (each was either stored in a new
+            // xorb or found); a session run by another client with a shard cache of its own contributes nothing
+            if !ss.foreign_no_cache {
+                for x in &obs.new_xorbs {
+                    for (h, _) in &known_xorbs[&x.name_hash] {
+                        prior_chunks.insert(*h);
+                    }
+                }
+                for f in &obs.files {
+                    for (h, _) in rm::chunk_list(&f.bytes, target) {
+                        prior_chunks.insert(h);
+                    }
                 }
             }
 
@@ -575,6 +586,7 @@ pub fn family(name: &str, tier: Tier) -> Vec<Scenario> {
                                 order: ord,
                                 salt: 0,
                                 foreign: false,
+                                foreign_no_cache: false,
                             }],
                         });
                     }
@@ -696,6 +708,40 @@ pub fn family(name: &str, tier: Tier) -> Vec<Scenario> {
                         v.push(Scenario {
                             family: "F10".into(),
                             sessions: vec![SessionSpec::seq(vec![FileSpec::new(&w0, 2, Feed::Whole)]), other, SessionSpec::seq(vec![FileSpec::new(&w2, 0, Feed::Whole)])],
+                        });
+                    }
+                }
+            }
+        },
+        // the store already holds what this client uploads, but this client's shard cache has never heard of it
+        // (another client with a shard cache of its own uploaded the same content): the upload must still be
+        // recorded in this client's shards, so that its own repeat session transfers nothing
+        "F11" => {
+            let l = tier.pick(2, 3);
+            for w0 in [vec![5u8], vec![]] {
+                for w1 in words(3, l) {
+                    if w1.is_empty() {
+                        continue;
+                    }
+                    let mut seconds: Vec<Vec<u8>> = vec![w1.clone()];
+                    let mut ext = w1.clone();
+                    ext.push(6);
+                    seconds.push(ext);
+                    let mut pre = vec![7u8];
+                    pre.extend(w1.iter().copied());
+                    seconds.push(pre);
+                    for w2 in seconds {
+                        let mut other = SessionSpec::seq(vec![FileSpec::new(&w1, 0, Feed::Whole)]);
+                        other.foreign = true;
+                        other.foreign_no_cache = true;
+                        v.push(Scenario {
+                            family: "F11".into(),
+                            sessions: vec![
+                                SessionSpec::seq(vec![FileSpec::new(&w0, 2, Feed::Whole)]),
+                                other,
+                                SessionSpec::seq(vec![FileSpec::new(&w2, 0, Feed::Whole)]),
+                                SessionSpec::seq(vec![FileSpec::new(&w2, 0, Feed::Whole)]),
+                            ],
                         });
                     }
                 }
@@ -837,6 +883,7 @@ pub fn family(name: &str, tier: Tier) -> Vec<Scenario> {
                                 order: vec![],
                                 salt,
                                 foreign: false,
+                                foreign_no_cache: false,
                             }],
                         });
                     }
